@@ -353,6 +353,43 @@ theorem C19_fragment_length_partial (mode : Nat) (s : Text) (M : Nat) (ts : List
     have := length_le_byteLen (sliceFrom 0 s f.start f.stop)
     simp only; omega
 
+/-- the fragment-length clause, **full and unconditional** in the form that is true: for every
+contract-satisfying token stream the fragment is within `max_num_chars` bytes **or** it is spanned
+by one single token of the stream (`text[t.from..t.to]`, the token that opened the fragment) —
+exactly the shape of the recorded S7 finding, nothing else can exceed the limit -/
+theorem C19_fragment_within_limit_or_single_token (mode : Nat) (s : Text) (M : Nat)
+    (ts : List STok) (hc : SContract s ts) :
+    ∃ sn, snippet mode s M ts = some sn ∧
+      (byteLen sn.fragment ≤ M ∨
+        ∃ t ∈ ts, sn.fragment = sliceFrom 0 s t.from_ t.to ∧ byteLen sn.fragment = t.to - t.from_) := by
+  obtain ⟨frags, e, hf⟩ := search_P8 mode s M ts hc
+  simp only [snippet, e]
+  cases hb : selectBest frags with
+  | none => exact ⟨⟨[], []⟩, rfl, Or.inl (by simp [byteLen])⟩
+  | some f =>
+    obtain ⟨hfi, hl⟩ := hf f (selectBest_mem frags f hb)
+    simp only [mkSnippet_of_FI s f hfi]
+    obtain ⟨f1, _, f3, f4, _⟩ := hfi
+    have hlen := byteLen_slice (Nat.zero_le _) f3 f4 f1
+    refine ⟨_, rfl, ?_⟩
+    rcases hl with hl | ⟨t, ht, e1, e2⟩
+    · left; simp only; omega
+    · right
+      refine ⟨t, ht, ?_, ?_⟩
+      · simp only [e1, e2]
+      · simp only [hlen, e1, e2]
+
+/-- hence a bound that needs no hypothesis on the tokens: the fragment is never longer than the
+larger of `max_num_chars` and the longest token -/
+theorem C19_fragment_length_bound (mode : Nat) (s : Text) (M L : Nat) (ts : List STok)
+    (hc : SContract s ts) (hL : ∀ t ∈ ts, t.to - t.from_ ≤ L) :
+    ∃ sn, snippet mode s M ts = some sn ∧ byteLen sn.fragment ≤ max M L := by
+  obtain ⟨sn, h1, h2⟩ := C19_fragment_within_limit_or_single_token mode s M ts hc
+  refine ⟨sn, h1, ?_⟩
+  rcases h2 with h | ⟨t, ht, _, e⟩
+  · omega
+  · have := hL t ht; omega
+
 /-- DESIGN S7 (holds for the code in either mode): text `abcdefghij klm`, query `abcdefghij`,
 `max_num_chars = 3`: the first token of a fragment is added unconditionally, the fragment is 10
 bytes long -/
@@ -450,6 +487,27 @@ theorem C19_raw_highlights_disjoint_partial (mode : Nat) (s : Text) (M : Nat) (t
     (hc : SContract s ts) (hd : ts.Pairwise (fun a b => a.to ≤ b.from_)) :
     ∃ sn, snippet mode s M ts = some sn ∧ sn.hl.Pairwise (fun a b => a.2 ≤ b.1) := by
   obtain ⟨frags, e, hf⟩ := search_P5 mode s M ts hc hd
+  simp only [snippet, e]
+  cases hb : selectBest frags with
+  | none => exact ⟨⟨[], []⟩, rfl, by simp⟩
+  | some f =>
+    obtain ⟨hfi, hp⟩ := hf f (selectBest_mem frags f hb)
+    simp only [mkSnippet_of_FI s f hfi]
+    refine ⟨_, rfl, ?_⟩
+    simp only [List.pairwise_map]
+    refine hp.imp_of_mem ?_
+    intro a b ha hb hab
+    have := (hfi.2.2.2.2 a ha).1
+    have := (hfi.2.2.2.2 b hb).1
+    omega
+
+/-- the unconditional part of "the highlighted ranges are sorted": for every contract-satisfying
+token stream (overlapping and duplicated tokens included) the raw highlights are ordered by their
+start offset -/
+theorem C19_raw_highlights_sorted_by_start (mode : Nat) (s : Text) (M : Nat) (ts : List STok)
+    (hc : SContract s ts) :
+    ∃ sn, snippet mode s M ts = some sn ∧ sn.hl.Pairwise (fun a b => a.1 ≤ b.1) := by
+  obtain ⟨frags, e, hf⟩ := search_P9 mode s M ts hc
   simp only [snippet, e]
   cases hb : selectBest frags with
   | none => exact ⟨⟨[], []⟩, rfl, by simp⟩
